@@ -210,7 +210,7 @@ fn judge_c14(case: &Case, inp: &Decoded, out: &Decoded, st: &mut Stats) {
 }
 
 /// C10 predicate
-fn judge_c10(case: &Case, inp: &Decoded, out: &Decoded, st: &mut Stats) {
+pub fn judge_c10(case: &Case, inp: &Decoded, out: &Decoded, st: &mut Stats) {
     let replay = case.replay_json();
     let ox = case.opts.to_oxi();
     let keeps = |n: &[u8; 4]| oxipng::verif::strip_keep(&ox.strip, n);
